@@ -1,0 +1,48 @@
+package internal
+
+import (
+	"testing"
+	"time"
+
+	"github.com/stretchr/testify/require"
+)
+
+// An entry whose deadline has already passed when it is (re)scheduled must be
+// expired by the next advance that moves the wheel to a new tick, and not wait
+// for a full rotation of the first wheel.
+func TestTimerWheel_SchedulePastDeadline(t *testing.T) {
+	second := time.Second.Nanoseconds()
+	slack := 1100 * time.Millisecond.Nanoseconds()
+
+	// how far behind the wheel time the deadline is
+	behinds := []int64{0, 1, second / 2, 5 * second, 30 * second, 100 * second, 10000 * second}
+	for _, behind := range behinds {
+		tw := NewTimerWheel[string, string](1000)
+		tw.nanos += 20000 * second
+		begin := tw.nanos
+		// move the cursor away from the first slot
+		for now := begin + second; now <= begin+10*second; now += second {
+			tw.advance(now, func(e *Entry[string, string], reason RemoveReason) {})
+		}
+
+		scheduledAt := tw.nanos
+		entry := NewEntry("k", "", 1, scheduledAt-behind)
+		tw.schedule(entry)
+		require.NotNil(t, entry.meta.wheelPrev)
+
+		expired := false
+		for now := scheduledAt + second; !expired; now += second {
+			tw.advance(now, func(e *Entry[string, string], reason RemoveReason) {
+				require.Equal(t, EXPIRED, reason)
+				expired = true
+			})
+			if !expired && now >= scheduledAt+slack {
+				t.Fatalf(
+					"deadline %dms in the past: still scheduled %dms after schedule",
+					behind/1e6, (now-scheduledAt)/1e6,
+				)
+			}
+		}
+		require.Nil(t, entry.meta.wheelPrev)
+	}
+}
